@@ -1015,7 +1015,12 @@ pub(crate) async fn prepare_request(
         )]);
     }
 
-    crate::validation::check_variable_values(registry, &operation.node, &request.variables)?;
+    crate::validation::check_variable_values(
+        registry,
+        &operation.node,
+        &request.variables,
+        validation_mode,
+    )?;
 
     // remove skipped fields
     let variable_definitions = std::mem::take(&mut operation.node.variable_definitions);
